@@ -164,9 +164,12 @@ def real_verdicts(adm, handles):
         with warnings.catch_warnings():
             warnings.simplefilter("ignore")
             items = select_rendering_items(adm)
-    except Exception as e:  # structure validation rejects rtime xor duration before any interpreter runs
-        v = _verdict_of_exc(e)
-        return [[v for _ in objs] for _, objs in handles]
+    except Exception as e:
+        # document validation rejects "rtime xor duration" before any interpreter runs; to still tie the model's
+        # `accepted` to the interpreters on such input, feed them hand-built metadata blocks
+        if _verdict_of_exc(e) != "mixedTiming":
+            return [["X:select:%s" % _verdict_of_exc(e) for _ in objs] for _, objs in handles]
+        return _direct_verdicts(handles)
     res = []
     for cf, objs in handles:
         row = []
@@ -190,6 +193,31 @@ def real_verdicts(adm, handles):
                     if blk is None:
                         break
                     list(interp(SR, blk))
+            except Exception as e:
+                v = _verdict_of_exc(e)
+            row.append(v)
+        res.append(row)
+    return res
+
+
+def _direct_verdicts(handles):
+    from ear.core.metadata_input import ObjectTypeMetadata, DirectSpeakersTypeMetadata, ExtraData
+    from ear.core.objectbased.renderer import InterpretObjectMetadata
+    from ear.core.direct_speakers.renderer import InterpretDirectSpeakersMetadata
+    from ear.fileio.adm.elements import AudioBlockFormatObjects
+
+    res = []
+    for cf, objs in handles:
+        row = []
+        for obj in objs:
+            extra = ExtraData(object_start=obj.start, object_duration=obj.duration)
+            is_obj = all(isinstance(bf, AudioBlockFormatObjects) for bf in cf.audioBlockFormats)
+            interp = (InterpretObjectMetadata if is_obj else InterpretDirectSpeakersMetadata)(lambda blk: None)
+            v = "ok"
+            try:
+                for bf in cf.audioBlockFormats:
+                    md = (ObjectTypeMetadata if is_obj else DirectSpeakersTypeMetadata)(block_format=bf, extra_data=extra)
+                    list(interp(SR, md))
             except Exception as e:
                 v = _verdict_of_exc(e)
             row.append(v)
@@ -356,7 +384,7 @@ def gen_outside(rng, k):
     """Inputs outside the theorems' hypotheses, built on purpose (the excluded points)."""
     c = gen_timeline(rng, k, rng.randint(2, 4), rng.choice("OD"))
     kind = rng.choice(["start-after-end", "start-at-end", "decreasing", "mixed-untimed", "rtime-xor-duration",
-                       "two-untimed", "negative-last-duration", "assert-inf"])
+                       "two-untimed", "negative-last-duration", "assert-inf", "negative-object-duration"])
     bl = [list(b) for b in c["blocks"]]
     if kind in ("start-after-end", "start-at-end"):
         extra = F(0) if kind == "start-at-end" else F(rng.randint(1, 50), 10**k)
@@ -376,6 +404,10 @@ def gen_outside(rng, k):
         if c["typ"] == "O":
             bl[-1][2], bl[-1][3] = True, rng.choice([None, F(0)])
         c["objs"] = [(c["objs"][0][0], None)]
+    elif kind == "negative-object-duration":
+        bl = [[None, None, True, rng.choice([None, F(0)])]]
+        c["typ"] = "O"
+        c["objs"] = [(c["objs"][0][0], -F(rng.randint(1, 300), 10**k))]
     elif kind == "assert-inf":
         # a block without end that continues directly from a block ending at the object's start
         bl = [[F(-1), F(1), False, None], [None, None, False, None]]
@@ -395,6 +427,8 @@ def classify(case):
     timed = [b[0] is not None and b[1] is not None for b in bl]
     untimed = [b[0] is None and b[1] is None for b in bl]
     if len(bl) == 1 and untimed[0]:
+        if any(d is not None and d < 0 for _, d in case["objs"]):
+            return "untimed-block-negative-object-duration"
         return None
     if not all(t or u for t, u in zip(timed, untimed)):
         return "rtime-xor-duration"
@@ -495,6 +529,12 @@ def write_bw64(path, cases):
     return xml, [cf.id for cf, _ in handles]
 
 
+def _parse_block(s):
+    r, d, o, j, il = s.split(",")
+    g = lambda x: None if x == "-" else F(x)
+    return (g(r), g(d), o == "1", j == "1", g(il))
+
+
 def channel_blocks(adm, cf_id):
     cf = adm[cf_id]
     return [block_str(*b) for b in blocks_of(cf)]
@@ -508,9 +548,10 @@ class C15(Spec):
         "Earverif.TimingFix." + t
         for t in (
             "fix_ok", "fix_rtime_unchanged", "fix_contiguous", "fix_interp_le_duration", "fix_within_object",
-            "fix_accepted_by_renderer", "fix_idempotent", "fix_second_run_silent",
-            "rounding_meets_hypotheses", "roundDec_mono", "roundDec_err",
-            "excluded_start_at_object_end", "excluded_negative_last_duration",
+            "fix_accepted_by_renderer", "fix_idempotent", "fix_second_run_silent", "fix_post",
+            "rounding_meets_hypotheses", "rounding_meets_hypotheses_dec", "roundDec_mono", "roundDec_err",
+            "excluded_start_at_object_end", "excluded_negative_last_duration", "excluded_rtime_xor_duration",
+            "excluded_two_untimed", "excluded_decreasing_rtimes",
         )
     )
     trusted_base = (
@@ -527,7 +568,8 @@ class C15(Spec):
         "duration >= 0.  Outside (run on the real code and counted as excluded points): last block starting at/after "
         "the object's end (ValueError), rtime xor duration (AssertionError / validation error), several untimed or "
         "mixed timed+untimed blocks (renderer: overlapping blocks), decreasing rtimes (negative durations), negative "
-        "last duration with jumpPosition (renderer: interpolation length longer than block)",
+        "last duration with jumpPosition or an untimed block under an object of negative duration (renderer: "
+        "interpolation length longer than block)",
         "first-run warning kinds are compared with the model but a difference is only recorded "
         "(distribution key firstrun-warnings:differ), since the property speaks only about the second run's warnings",
     )
@@ -588,6 +630,11 @@ class C15(Spec):
         else:
             outcome = r["status"] if r["status"] != "ok" else "repaired-then-" + ",".join(sorted(set(r["post"])))
             ctx.count("excluded-point:%s => %s" % (excl, outcome.split(":")[0]))
+            if c["origin"] == "rounded":
+                # the generator builds exactly the timelines of Earverif.TimingFix.ExactValid (durations above the
+                # rounding unit): rounding_meets_hypotheses says they satisfy the hypotheses
+                ctx.disagree("rounded valid timeline falls outside the hypotheses (rounding_meets_hypotheses)",
+                             enc(c), "Hyp and HypAccept", excl)
         if m is None:
             return
         # model vs code (exact)
@@ -622,7 +669,6 @@ class C15(Spec):
                 g = [gen_untimed(rng, k)]
             elif x < 0.42:
                 g = [gen_timeline(rng, k, rng.randint(1, 8), rng.choice("OOD")) for _ in range(rng.randint(2, 4))]
-                g = [c for c in g if classify(c) is None] or [gen_untimed(rng, k)]
             else:
                 nb = rng.choice([1, 2, 2, 3, 3, 4, 5, 6, 8, 12, 20])
                 g = [gen_timeline(rng, k, nb, rng.choice("OOD"))]
@@ -706,15 +752,30 @@ class C15(Spec):
                     ctx.disagree("entry point %s vs model (%s)" % (name, mode), enc(c), mblocks, a)
                 else:
                     ctx.validated()
-            # direct predicate for the entry point: the repair happened (durations contiguous, rtimes unchanged)
-            rt = lambda bs: [x.split(",")[0] for x in bs]
-            if rt(a) != rt(b):
-                ctx.hit("entry point %s changed rtimes" % name, enc(c), [b, a], ["c15-predicate", name])
-            for x, y in zip(a[:-1], a[1:]):
-                xr, xd = x.split(",")[:2]
-                if xr != "-" and xd != "-" and y.split(",")[0] != "-" and F(xr) + F(xd) != F(y.split(",")[0]):
-                    ctx.hit("entry point %s did not repair durations" % name, enc(c), [b, a], ["c15-predicate", name])
+            # direct predicate for the entry point: the repair happened (rtimes unchanged, durations contiguous,
+            # interpolation lengths inside their blocks, blocks inside the objects)
+            pb, pa = [_parse_block(x) for x in b], [_parse_block(x) for x in a]
+            fails = []
+            if [x[0] for x in pa] != [x[0] for x in pb]:
+                fails.append("changed rtimes")
+            for x, y in zip(pa[:-1], pa[1:]):
+                if x[0] is not None and x[1] is not None and y[0] is not None and x[0] + x[1] != y[0]:
+                    fails.append("did not make durations contiguous")
                     break
+            for x, y in zip(pb, pa):
+                has_il = y[2] and y[3] and y[4] is not None and y[1] is not None
+                if mode == "fix":
+                    if has_il and y[4] > y[1]:
+                        fails.append("left an interpolationLength longer than its block")
+                    for _, d in c["objs"]:
+                        if d is not None and y[0] is not None and y[1] is not None and y[0] + y[1] > d:
+                            fails.append("left a block extending past its object")
+                elif has_il and x[4] is not None and x[1] is not None and x[4] <= x[1] and y[4] > y[1]:
+                    # the duration-only repair of the reader option: an interpolationLength that fitted its block
+                    # before the repair still fits after it
+                    fails.append("made a fitting interpolationLength longer than its (contracted) block")
+            for f in sorted(set(fails)):
+                ctx.hit("entry point %s %s" % (name, f), enc(c), {"before": b, "after": a}, ["c15-predicate", name])
 
     def _reader_option_string(self, ctx, driver, rng, count):
         import lxml.etree
